@@ -15,6 +15,8 @@ Groups (a property module lists the ones it relies on in `JIT_TWIN`):
   velocity  the six flow callables for all axis assignments
   voigt     minerals.voigt_averages and diagnostics.elasticity_components
   update    whole texture-update histories (Mineral.update_orientations / update_all through LSODA)
+  large_update  (compiled only, too slow interpreted) updates of aggregates of 8200 (thorough: up to 70000) grains with the
+            clauses of C01 / C05 / C06 evaluated in the worker
 """
 from __future__ import annotations
 
@@ -164,13 +166,67 @@ def _b_update(rng, thorough):
     from . import solver
 
     out = []
-    for k in range(3 if not thorough else 10):
-        sc = solver.make_scenario(rng, k, nmax=10, regimes=(4, 6))
-        m, Fs, _ = solver.run_scenario(sc, record=False)
-        out.append((f"update_orientations[{sc['phase']},{sc['fabric']},regime{sc['regime']},n={sc['n']},updates={sc['n_updates']}]",
+    scs = [solver.make_scenario(rng, k, nmax=10, regimes=(4, 6)) for k in range(3 if not thorough else 10)]
+    # grains on which no slip system can be activated (exactly axis-aligned grains under an axis-aligned shear; for C-type
+    # olivine only the infinite-CRSS system is resolved): guards against 0/0 that compiled fastmath code may fold away
+    for fab, (i, j) in ([(2, (1, 2)), (0, (0, 2))] if not thorough else [(2, (1, 2)), (2, (2, 1)), (0, (0, 2)), (1, (0, 2)), (3, (2, 0)), (4, (0, 2))]):
+        sc = solver.make_scenario(rng, 0, nmax=6, regimes=(4, 6), fields=["const"])
+        L = np.zeros((3, 3))
+        L[i, j] = 2.0
+        sc.update(phase=0, fabric=fab, tex="aligned_mixed", field=solver.LField(L), field_kind=f"no_slip_witness:{fab}:{i}{j}", n=max(sc["n"], 3))
+        scs.append(sc)
+    for sc in scs:
+        with np.errstate(all="ignore"):
+            m, Fs, _ = solver.run_scenario(sc, record=False)
+        out.append((f"update_orientations[{sc['phase']},{sc['fabric']},regime{sc['regime']},n={sc['n']},updates={sc['n_updates']},{sc['field_kind']}]",
                     solver.scenario_json(sc), _flat([m.orientations[-1], m.fractions[-1], Fs[-1]])))
     return out
 
+
+# ------------------------------------------------------------------ predicate groups: run ONLY compiled (too slow interpreted)
+def _p_large_update(prop, rng, thorough):
+    """texture updates of aggregates with many grains (above any plausible threshold for a parallel / blocked / vectorised code
+    path): the clauses of C01, C05 and C06 evaluated on the compiled code. Returns violation records."""
+    from . import solver
+
+    out = []
+    for n, regime in ([(8200, 4)] if not thorough else [(4100, 4), (8200, 4), (8200, 6), (16400, 4), (70000, 4)]):
+        sc = solver.make_scenario(rng, int(rng.integers(0, 100)), nmax=4, regimes=(regime,), fields=["const", "time"])
+        if n != 4100:      # olivine (enstatite has no boundary migration in the model: equal strain energies)
+            sc.update(phase=0, fabric=int(rng.integers(0, 5)))
+        sc.update(n=n, params_n=n, n_updates=1 if n > 20000 else 2, span=float(rng.uniform(0.2, 0.4)), tex="nonuniform" if n % 200 else "random",
+                  Mob=float(rng.choice([50.0, 125.0])), debug_log=False)
+        rep = solver.scenario_json(sc)
+        m, Fs, _ = solver.run_scenario(sc, record=False)
+        A, f = m.orientations[-1], m.fractions[-1]
+        strain = solver.accumulated_strain(sc)
+        tol = 5e-3 + 1e-3 * (sc["n_updates"] + 2 * strain)
+        if prop == "C01":
+            dev = float(np.abs(np.einsum("gij,gkj->gik", A, A) - np.eye(3)).max()) if np.isfinite(A).all() else float("inf")
+            if (len(m.fractions) != sc["n_updates"] + 1 or A.shape != (n, 3, 3) or f.shape != (n,) or not np.isfinite(f).all()
+                    or (f < 0).any() or abs(f.sum() - 1) > 1e-9 or dev > tol):
+                out.append({"key": "large_n:invalid_snapshot", "what": f"{n} grains (compiled code): stored snapshot is not a valid texture "
+                            f"(snapshots {len(m.fractions)}, sum f {float(np.sum(f))!r}, max|A.A^T-I| {dev:.3e})", "replay": rep})
+        if prop == "C06":
+            Fref = solver.reference_F(sc)
+            rel = float(np.abs(Fs[-1] - Fref).max() / max(1.0, np.abs(Fref).max()))
+            if not rel <= tol:
+                out.append({"key": "large_n:F_solution", "what": f"{n} grains (compiled code): returned F differs from the ODE solution: {rel:.3e} > {tol:.3e}",
+                            "replay": rep})
+        if prop == "C05":
+            k = float(rng.choice([25.0, 1e3, 1e-3, 1e-14]))
+            sck = dict(sc, field=sc["field"].scaled(k))
+            m2, F2, _ = solver.run_scenario(sck, times=solver.times_of(sc) / k, record=False)
+            dA = max(float(np.abs(a - b).max()) for a, b in zip(m.orientations, m2.orientations))
+            df = max(float(np.abs(a - b).max()) for a, b in zip(m.fractions, m2.fractions)) * n     # in units of the mean grain volume
+            dF = float(np.abs(Fs[-1] - F2[-1]).max() / max(1.0, np.abs(Fs[-1]).max()))
+            if not (dA <= tol and df <= tol and dF <= tol):
+                out.append({"key": "large_n:rate_invariance", "what": f"{n} grains (compiled code), k={k:g}: max|dA|={dA:.3e} max|df|*n={df:.3e} rel dF={dF:.3e} > {tol:.3e}",
+                            "replay": dict(rep, k=k)})
+    return out
+
+
+PREDICATES = {"large_update": _p_large_update}
 
 BATTERIES = {"tensors": _b_tensors, "utils": _b_utils, "velocity": _b_velocity, "voigt": _b_voigt, "update": _b_update}
 
@@ -186,7 +242,8 @@ def start(groups, ctx):
     env = dict(os.environ)
     env.pop("NUMBA_DISABLE_JIT", None)
     env["PYDREX_VERIF_JIT"] = "1"
-    return subprocess.Popen([sys.executable, "-m", "harness.jittwin", ",".join(groups), str(ctx["seed"]), "1" if ctx["thorough"] else "0"],
+    return subprocess.Popen([sys.executable, "-m", "harness.jittwin", ",".join(groups), str(ctx["seed"]), "1" if ctx["thorough"] else "0",
+                             ctx.get("prop", "")],
                             cwd=str(C.VERIF), env=env, stdout=subprocess.PIPE, stderr=subprocess.PIPE, text=True)
 
 
@@ -202,7 +259,12 @@ def finish(handle, groups, ctx, res, prop):
         res.mismatch("numba-compiled vs interpreted", {"groups": list(groups)}, "", "", note="the compiled twin failed: " + se[-600:])
         return
     compiled = json.loads(line[0][7:])
-    for g in groups:
+    for g in [g_ for g_ in groups if g_ in PREDICATES]:
+        res.count(f"jit-twin:{g}(compiled only)")
+        res.evaluations += 1
+        for v in compiled[g]:
+            res.violation(v["key"], v["what"], v["replay"])
+    for g in [g_ for g_ in groups if g_ not in PREDICATES]:
         interp = battery(g, ctx["seed"], ctx["thorough"])
         comp = compiled[g]
         if len(comp) != len(interp):
@@ -210,6 +272,11 @@ def finish(handle, groups, ctx, res, prop):
             continue
         for (nm, inp, a), (nm2, _, b) in zip(interp, comp):
             res.count(f"jit-twin:{g}")
+            if g == "update" and not all(z == z and abs(z) != float("inf") for z in b):
+                # a texture snapshot or deformation gradient with NaN/inf violates every property that speaks about textures
+                res.violation("compiled:nonfinite_texture", f"{nm}: the numba-compiled code stores a non-finite snapshot / returns a non-finite "
+                              "deformation gradient for this history (the interpreted code " + ("does too)" if not all(z == z for z in a) else "does not)"), inp)
+                continue
             sc = max(1.0, max((abs(z) for z in a if z == z), default=0.0))
             ok = len(a) == len(b) and all((x != x and y != y) or abs(x - y) <= TOL[g] * sc for x, y in zip(a, b))
             if ok:
@@ -225,7 +292,13 @@ def _worker():
     import numba
 
     assert not numba.config.DISABLE_JIT
-    out = {g: [(nm, None, o) for nm, _, o in battery(g, seed, thorough)] for g in groups}
+    prop = sys.argv[4] if len(sys.argv) > 4 else ""
+    out = {}
+    for g in groups:
+        if g in PREDICATES:
+            out[g] = C.jsonable(PREDICATES[g](prop, np.random.default_rng([seed, 4242]), thorough))
+        else:
+            out[g] = [(nm, None, o) for nm, _, o in battery(g, seed, thorough)]
     print("RESULT " + json.dumps(out))
 
 
